@@ -77,7 +77,7 @@ func (s scenario) expected() (perFrame [][]expMsg) {
 }
 
 func c05(c *Ctx) {
-	c.Rule = "transfers of N packets (N 1..6 exhaustively over all arrival orders with packet 1 first x every single duplicate; two interleaved transfers, all interleavings for N<=3; N in 7..40 and 255 with random orders and duplicates), bodies non-empty equal/unequal with and without escape bytes, both versions, impossible numbers 0 / N+1 / 65535 injected at every position, unfragmented messages interleaved; each scenario fed frame by frame, coalesced in one read (<=1023 bytes per read), with random cuts and byte by byte; plus ill-formed sub-package streams (correspondence only); plus histories whose reads are spread over time (clock steps of 5..20 s between reads, below 60 s in all, frames split over reads): reassembly unaffected, only generated 0x8003 messages added. A case is non-trivial when it contains a transfer of at least 2 packets; distinct = distinct request lines"
+	c.Rule = "exhaustive part (the exhaustive flag refers to it only): transfers of N packets, N = 1..6 in the quick tier / 1..7 in the thorough tier: every arrival order with packet 1 first, each order with every single duplicate of 2..N at every position (also after completion), and with each of the impossible numbers 0, N+1, 65535 at every position (also before packet 1); two interleaved transfers of 1..3 packets: every order of each x every interleaving. Sampled part: N in 7..40 and 255 with random orders, duplicates, impossible numbers, 1..3 concurrent ids, unfragmented messages interleaved; bodies non-empty equal/unequal with and without escape bytes, both versions (bodies and read segmentation of the exhaustive part are drawn at random per case); each scenario fed frame by frame, coalesced in one read (<=1023 bytes per read), with random cuts and byte by byte; plus ill-formed sub-package streams (correspondence only); plus histories whose reads are spread over time (clock steps of 5..20 s between reads, below 60 s in all, frames split over reads): reassembly unaffected, only generated 0x8003 messages added. A case is non-trivial when it contains a transfer of at least 2 packets; distinct = distinct request lines"
 	rng := c.Rng
 	quick := c.Quick()
 
@@ -191,7 +191,7 @@ func c05(c *Ctx) {
 			}
 			feedAll(scenario{trs, base}, fmt.Sprintf("exh/N%d", n), n <= 3)
 			// every single duplicate of 2..N at every later position (also after completion)
-			if n >= 2 && (n <= 4 || !quick || rng.Intn(4) == 0) {
+			if n >= 2 {
 				for _, d := range order {
 					for pos := 1; pos <= len(base); pos++ {
 						// the duplicate must come after packet 1; it may precede its original
@@ -206,9 +206,8 @@ func c05(c *Ctx) {
 				}
 			}
 			// impossible numbers at every position after packet 1 (and before it)
-			if n <= 4 || rng.Intn(6) == 0 {
+			for _, bad := range []int{0, n + 1, 65535} {
 				for pos := 0; pos <= len(base); pos++ {
-					bad := []int{0, n + 1, 65535}[rng.Intn(3)]
 					items := append(append(append([]item{}, base[:pos]...), item{f: tr.Odd(bad, RandBody(rng, 1+rng.Intn(4))), tr: -1}), base[pos:]...)
 					w, ends := wire(scenario{trs, items})
 					if rng.Intn(2) == 0 {
